@@ -49,6 +49,11 @@ type Step struct {
 	Obj  string `json:"obj,omitempty"` // service "chainA:svc1" or chain "chainA"
 	Ok   bool   `json:"ok,omitempty"`  // approve (true) or reject
 	N    int    `json:"n,omitempty"`
+	// governance scenarios (C15)
+	Args   []string `json:"args,omitempty"`   // submit: further arguments
+	By     string   `json:"by,omitempty"`     // submit / vote / withdraw: sender account
+	Pid    int      `json:"pid,omitempty"`    // vote / withdraw: index into the proposals created so far
+	Ballot string   `json:"ballot,omitempty"` // vote
 }
 
 type Plan struct {
@@ -61,6 +66,7 @@ type Plan struct {
 	Unord   []string          `json:"unordered,omitempty"` // services registered as unordered
 	Black   map[string]string `json:"black,omitempty"`     // service -> blacklisted full source id
 	Steps   []Step            `json:"steps"`
+	GovMode bool              `json:"govmode,omitempty"`
 	FreeGas bool              `json:"freegas,omitempty"` // gas price 0: callers never run out of funds (surface scenarios)
 }
 
@@ -77,6 +83,8 @@ type runner struct {
 	rrng         *rand.Rand
 	nrep         int
 	lastProposal string
+	pids         []string // proposals created so far (governance scenarios)
+	govMode      bool
 }
 
 func digest(res *core.BlockResult) map[string]interface{} {
@@ -397,7 +405,51 @@ func (r *runner) observe(n *core.Node, res *core.BlockResult) map[string]interfa
 	for _, s := range r.svcs {
 		sv = append(sv, m{"svc": full(n, s), "st": n.ServiceStatus(s)})
 	}
-	return m{"counters": ctr, "status": st, "groups": groups, "tmeta": tm, "mmeta": mmeta, "svc": sv}
+	out := m{"counters": ctr, "status": st, "groups": groups, "tmeta": tm, "mmeta": mmeta, "svc": sv}
+	if r.govMode {
+		props := []m{}
+		for _, pid := range r.pids {
+			rc := n.Query(constant.GovernanceContractAddr.Address(), "GetProposal", pb.String(pid))
+			pr := contracts.Proposal{}
+			if rc == nil || rc.Status != pb.Receipt_SUCCESS || json.Unmarshal(rc.Ret, &pr) != nil {
+				props = append(props, m{"pid": pid, "found": false, "status": "missing", "approve": 0, "against": 0, "voters": []m{}, "elect": []string{}, "initial": 0, "avail": 0,
+					"expr": "", "special": false, "superVoted": false, "endReason": "", "obj": "", "event": "", "typ": ""})
+				continue
+			}
+			voters := []m{}
+			vs := []string{}
+			for a := range pr.BallotMap {
+				vs = append(vs, a)
+			}
+			sort.Strings(vs)
+			for _, a := range vs {
+				voters = append(voters, m{"a": a, "b": pr.BallotMap[a].Approve})
+			}
+			el := []string{}
+			for _, e := range pr.ElectorateList {
+				el = append(el, e.ID)
+			}
+			sort.Strings(el)
+			props = append(props, m{"pid": pid, "found": true, "status": string(pr.Status), "approve": int(pr.ApproveNum), "against": int(pr.AgainstNum), "voters": voters, "elect": el,
+				"initial": int(pr.InitialElectorateNum), "avail": int(pr.AvailableElectorateNum), "expr": strings.Replace(pr.StrategyExpression, " ", "", -1), "special": pr.IsSpecial,
+				"superVoted": pr.IsSuperAdminVoted, "endReason": string(pr.EndReason), "obj": pr.ObjId, "event": string(pr.EventType), "typ": string(pr.Typ)})
+		}
+		roles := []m{}
+		accts := append([]*core.Account{}, n.Admins()...)
+		accts = append(accts, n.Account("newadmin1"), n.Account("newadmin2"))
+		for i, a := range accts {
+			rc := n.Query(constant.RoleContractAddr.Address(), "GetRoleInfoById", pb.String(a.Addr.String()))
+			ro := contracts.Role{}
+			stt := "none"
+			w := 0
+			if rc != nil && rc.Status == pb.Receipt_SUCCESS && json.Unmarshal(rc.Ret, &ro) == nil {
+				stt, w = string(ro.Status), int(ro.Weight)
+			}
+			roles = append(roles, m{"a": a.Addr.String(), "st": stt, "w": w, "i": i})
+		}
+		out["props"], out["roles"] = props, roles
+	}
+	return out
 }
 
 func (r *runner) execBlock(txs []pb.Transaction, descs []map[string]interface{}) bool {
@@ -481,6 +533,7 @@ func (r *runner) run(dir string) {
 	r.pair = pair
 	defer pair.Close()
 	r.idset, r.gids = map[string]bool{}, map[string]bool{}
+	r.govMode = p.GovMode
 	unord := map[string]bool{}
 	for _, s := range p.Unord {
 		unord[s] = true
@@ -611,6 +664,63 @@ func (r *runner) run(dir string) {
 			}
 		case "gov":
 			if !r.gov(st) {
+				return
+			}
+		case "submit": // a governance operation submitted by `By` with explicit arguments (one transaction, one block)
+			var from *core.Account = r.acct(a, st.By)
+			var args []*pb.Arg
+			for _, x := range st.Args {
+				switch {
+				case strings.HasPrefix(x, "@"):
+					args = append(args, pb.String(r.acct(a, x).Addr.String()))
+				case strings.HasPrefix(x, "u64:"):
+					v, _ := strconv.ParseUint(x[4:], 10, 64)
+					args = append(args, pb.Uint64(v))
+				default:
+					args = append(args, pb.String(x))
+				}
+			}
+			cname := map[string]string{"Service": "service", "Appchain": "appchain", "Role": "role", "Strategy": "strategy"}
+			c := "service"
+			for suf, cn := range cname {
+				if strings.Contains(st.M, suf) {
+					c = cn
+				}
+			}
+			tx := a.InvokeTx(from, lockstep.ContractsByName[c].Address(), st.M, args...)
+			d := map[string]interface{}{"k": "gov", "from": from.Addr.String(), "to": tx.GetTo().String(), "cls": "gov", "badsig": false, "m": st.M, "amtKind": "none", "amtNum": 0, "amt": "", "obj": st.Obj, "pid": ""}
+			r.emit(map[string]interface{}{"ev": "Submit", "h": int(a.Height() + 1), "n": 1})
+			ev, res := r.pair.Exec([]pb.Transaction{tx}, []map[string]interface{}{d}, 0)
+			if res != nil && res.Receipts[0].Status == pb.Receipt_SUCCESS {
+				if pid := a.ProposalIDOf(res.Receipts[0]); pid != "" {
+					r.pids = append(r.pids, pid)
+					d["pid"] = pid
+				}
+			}
+			if res != nil {
+				for k, v := range r.observe(a, res) {
+					ev[k] = v
+				}
+			}
+			r.emit(ev)
+			if res == nil || !r.replicate([]pb.Transaction{tx}, res) {
+				return
+			}
+		case "vote", "withdraw":
+			if len(r.pids) == 0 {
+				continue
+			}
+			pid := r.pids[st.Pid%len(r.pids)]
+			from := r.acct(a, st.By)
+			var tx pb.Transaction
+			if st.Step == "vote" {
+				tx = a.InvokeTx(from, constant.GovernanceContractAddr.Address(), "Vote", pb.String(pid), pb.String(st.Ballot), pb.String("r"))
+			} else {
+				tx = a.InvokeTx(from, constant.GovernanceContractAddr.Address(), "WithdrawProposal", pb.String(pid), pb.String("r"))
+			}
+			d := map[string]interface{}{"k": st.Step, "from": from.Addr.String(), "to": tx.GetTo().String(), "cls": st.Step, "badsig": false, "m": st.Step, "amtKind": "none", "amtNum": 0, "amt": "",
+				"pid": pid, "ballot": st.Ballot}
+			if !r.execBlock([]pb.Transaction{tx}, []map[string]interface{}{d}) {
 				return
 			}
 		case "open":
@@ -930,6 +1040,121 @@ func genSurface(rng *rand.Rand, name string, surf []lockstep.MethodInfo, frac in
 	return p
 }
 
+// governance scenarios (C15): proposals of several kinds and priorities, votes by admins / outsiders / frozen
+// admins with valid and garbage ballots, repeated votes, withdrawals, electorate changes while proposals are open
+func genGov(rng *rand.Rand, name string) *Plan {
+	p := &Plan{Name: name, Seed: 1, Proof: "serial", Chains: []string{"chainA", "chainB"}, NSvc: 1, Black: map[string]string{}, Audit: rng.Intn(3) == 0, GovMode: true}
+	admins := []string{"@admin0", "@admin1", "@admin2", "@admin3"}
+	exprs := []string{"a > 0.5 * t", "a == t", "a >= 1", "a * 3 > t * 2", "a >= 2"}
+	np := 0
+	submit := func() {
+		switch rng.Intn(10) {
+		case 0, 1:
+			p.Steps = append(p.Steps, Step{Step: "submit", M: "FreezeService", By: admins[rng.Intn(4)], Obj: "chainA:svc1", Args: []string{"chainA:svc1", "r"}})
+		case 2:
+			p.Steps = append(p.Steps, Step{Step: "submit", M: "ActivateService", By: admins[rng.Intn(4)], Obj: "chainA:svc1", Args: []string{"chainA:svc1", "r"}})
+		case 3:
+			p.Steps = append(p.Steps, Step{Step: "submit", M: "LogoutService", By: "admin-chainA", Obj: "chainA:svc1", Args: []string{"chainA:svc1", "r"}})
+		case 4:
+			p.Steps = append(p.Steps, Step{Step: "submit", M: "UpdateService", By: "admin-chainB", Obj: "chainB:svc1", Args: []string{"chainB:svc1", fmt.Sprintf("nm%d", rng.Intn(99)), "intro2", "", "details", "r"}})
+		case 5:
+			p.Steps = append(p.Steps, Step{Step: "submit", M: "FreezeAppchain", By: admins[rng.Intn(4)], Obj: "chainB", Args: []string{"chainB", "r"}})
+		case 6:
+			p.Steps = append(p.Steps, Step{Step: "submit", M: "RegisterRole", By: admins[rng.Intn(4)], Obj: "newadmin", Args: []string{[]string{"@newadmin1", "@newadmin2"}[rng.Intn(2)], "governanceAdmin", "", "r"}})
+		case 7:
+			p.Steps = append(p.Steps, Step{Step: "submit", M: "FreezeRole", By: admins[rng.Intn(4)], Obj: "admin", Args: []string{admins[1+rng.Intn(3)], "r"}})
+		case 8:
+			p.Steps = append(p.Steps, Step{Step: "submit", M: "ActivateRole", By: admins[rng.Intn(4)], Obj: "admin", Args: []string{admins[1+rng.Intn(3)], "r"}})
+		default:
+			p.Steps = append(p.Steps, Step{Step: "submit", M: "UpdateProposalStrategy", By: admins[rng.Intn(4)], Obj: "strategy",
+				Args: []string{[]string{"ServiceMgr", "AppchainMgr", "RoleMgr"}[rng.Intn(3)], "SimpleMajority", exprs[rng.Intn(len(exprs))], "r"}})
+		}
+		np++
+	}
+	for i := 0; i < 12+rng.Intn(25); i++ {
+		c := rng.Intn(10)
+		switch {
+		case np == 0 || c < 2:
+			submit()
+		case c < 9:
+			voter := admins[rng.Intn(4)]
+			if rng.Intn(10) == 0 {
+				voter = []string{"u3", "admin-chainA", "@newadmin1", "@newadmin2"}[rng.Intn(4)]
+			}
+			ballot := []string{"approve", "approve", "approve", "reject", "reject", "garbage", ""}[rng.Intn(7)]
+			pid := np - 1 - rng.Intn(2)
+			if rng.Intn(6) == 0 {
+				pid = rng.Intn(np)
+			}
+			if pid < 0 {
+				pid = 0
+			}
+			p.Steps = append(p.Steps, Step{Step: "vote", Pid: pid, By: voter, Ballot: ballot})
+		default:
+			p.Steps = append(p.Steps, Step{Step: "withdraw", Pid: rng.Intn(np), By: admins[rng.Intn(4)]})
+		}
+		if rng.Intn(15) == 0 {
+			p.Steps = append(p.Steps, Step{Step: "restart"})
+		}
+	}
+	return p
+}
+
+// electorate changes while a proposal is open: an admin is frozen (or a new one registered) before / after a
+// proposal is created and activated again while it is still open, then everybody votes
+func genGovElectorate(rng *rand.Rand, name string) *Plan {
+	p := &Plan{Name: name, Seed: 1, Proof: "serial", Chains: []string{"chainA", "chainB"}, NSvc: 1, Black: map[string]string{}, Audit: rng.Intn(3) == 0, GovMode: true}
+	np := 0
+	victim := []string{"@admin1", "@admin2", "@admin3"}[rng.Intn(3)]
+	others := []string{}
+	for _, a := range []string{"@admin0", "@admin1", "@admin2", "@admin3"} {
+		if a != victim {
+			others = append(others, a)
+		}
+	}
+	conclude := func(pid int, ballot string) {
+		for _, a := range others {
+			p.Steps = append(p.Steps, Step{Step: "vote", Pid: pid, By: a, Ballot: ballot})
+		}
+	}
+	target := func() {
+		switch rng.Intn(3) {
+		case 0:
+			p.Steps = append(p.Steps, Step{Step: "submit", M: "UpdateService", By: "admin-chainB", Obj: "chainB:svc1", Args: []string{"chainB:svc1", fmt.Sprintf("nm%d", rng.Intn(99)), "intro2", "", "details", "r"}})
+		case 1:
+			p.Steps = append(p.Steps, Step{Step: "submit", M: "FreezeService", By: others[0], Obj: "chainA:svc1", Args: []string{"chainA:svc1", "r"}})
+		default:
+			p.Steps = append(p.Steps, Step{Step: "submit", M: "UpdateProposalStrategy", By: others[1], Obj: "strategy", Args: []string{"ServiceMgr", "SimpleMajority", []string{"a == t", "a >= 2", "a * 3 > t * 2"}[rng.Intn(3)], "r"}})
+		}
+		np++
+	}
+	if rng.Intn(2) == 0 {
+		target() // proposal created while everybody is available
+	}
+	p.Steps = append(p.Steps, Step{Step: "submit", M: "FreezeRole", By: others[rng.Intn(3)], Obj: "admin", Args: []string{victim, "r"}})
+	freezeP := np
+	np++
+	conclude(freezeP, "approve")
+	target() // proposal created while the victim is frozen
+	tp := np - 1
+	if rng.Intn(3) > 0 {
+		p.Steps = append(p.Steps, Step{Step: "submit", M: "ActivateRole", By: others[rng.Intn(3)], Obj: "admin", Args: []string{victim, "r"}})
+		actP := np
+		np++
+		conclude(actP, "approve")
+	}
+	// now everybody votes on the open proposals, the (re)activated admin first or in between
+	voters := append([]string{victim}, others...)
+	rng.Shuffle(len(voters), func(i, j int) { voters[i], voters[j] = voters[j], voters[i] })
+	for _, v := range voters {
+		p.Steps = append(p.Steps, Step{Step: "vote", Pid: tp, By: v, Ballot: []string{"approve", "approve", "reject"}[rng.Intn(3)]})
+		if rng.Intn(3) == 0 {
+			p.Steps = append(p.Steps, Step{Step: "vote", Pid: 0, By: v, Ballot: "approve"})
+		}
+	}
+	return p
+}
+
 var surfCache []lockstep.MethodInfo
 
 func main() {
@@ -954,7 +1179,13 @@ func main() {
 	} else {
 		rng := rand.New(rand.NewSource(*seed))
 		for i := 0; i < *n; i++ {
-			if *mode == "surface" {
+			if *mode == "gov" {
+				if i%3 == 2 {
+					plans = append(plans, genGovElectorate(rng, fmt.Sprintf("govel-%d-%d", *seed, i)))
+				} else {
+					plans = append(plans, genGov(rng, fmt.Sprintf("gov-%d-%d", *seed, i)))
+				}
+			} else if *mode == "surface" {
 				if surfCache == nil {
 					surfCache = lockstep.Surface()
 				}
